@@ -380,6 +380,7 @@ type Inst struct {
 	P   *wgen.Program
 	Mod api.Module
 	T   *Trace
+	fns map[string]api.Function // handles kept across steps
 }
 
 // Instantiate compiles p (once per session) and instantiates it under name.
@@ -449,7 +450,16 @@ func (in *Inst) Step(si int, s Step) {
 		if _, err := mod.ExportedFunction("__setfuel").Call(ctx, uint64(uint32(fuel))); err != nil {
 			t.add("setfuel: %s", ErrClass(err))
 		}
-		f := mod.ExportedFunction(s.Fn)
+		// embedders keep api.Function handles: reuse the handle of earlier steps (three steps out of four), so that
+		// state left in a call engine by an earlier (failed) call is seen by later calls
+		f := in.fns[s.Fn]
+		if f == nil || si%4 == 3 {
+			f = mod.ExportedFunction(s.Fn)
+			if in.fns == nil {
+				in.fns = map[string]api.Function{}
+			}
+			in.fns[s.Fn] = f
+		}
 		res, err := f.Call(ctx, s.Args...)
 		if err != nil {
 			cls := ErrClass(err)
